@@ -241,7 +241,7 @@ let spec_val (t : ty) (d : dm) : string option =
    unless it really recurs — and then its entry is "fixed", which is a violation. *)
 let is_on (q : quirks) (set : quirks -> bool -> quirks) : bool = set q false <> q
 
-let prop_of_op = function "val" | "valg" -> "C08" | "build" | "buildg" -> "C09" | _ -> "C13"
+let prop_of_op = function "val" | "valg" -> "C08" | "build" | "buildg" | "bytes" | "bytesg" -> "C09" | _ -> "C13"
 
 let read_file (path : string) : string option =
   try let ic = open_in_bin path in
@@ -376,7 +376,7 @@ let vote name on =
 let gather (c : case) : unit =
   if wf c.t then begin
     let bind_obs = (match c.op with "both" -> (match split_obs c.obs with Some (b, _) -> Some b | None -> None)
-                                  | "valg" | "buildg" -> None
+                                  | "valg" | "buildg" | "bytes" | "bytesg" -> None
                                   | _ -> Some c.obs) in
     (match bind_obs with
      | Some ob ->
@@ -450,6 +450,34 @@ let process (q0 : quirks) (c : case) : unit =
     if obs = "nobuild" then out (f q0) "fail:gen_does_not_compile"
     else if not (wf t && gen_supported t) then out (f q0) "skip"
     else let (m, v) = judge_gen q0 f strip_r obs (spec_build lv t d) in out m v
+  | "bytes" | "bytesg" ->
+    (* dag-cbor bytes decoded by the strict decoder straight into the representation builder; the model
+       decodes to a tree (Codec/Cbor.v, repaired tree) and feeds rbuild; the SPEC is C09_bytes_accept_iff *)
+    let gen = (c.op = "bytesg") in
+    let bs = (match d with DBytes s -> s | _ -> failwith "bytes record without bytes") in
+    let dec = (match decode (dagcbor_dopts true) bs with Ok (d', _) -> Some d' | Err _ -> None) in
+    let f q = (match dec with
+        | Some d' -> build_obs (if gen then Gen else Bind) (if gen then gen_q c q else q) LRepr t d'
+        | None -> "err") in
+    let want = (match dec with Some d' -> spec_build LRepr t d' | None -> "err") in
+    let rename v =
+      if String.length v > 5 && String.sub v 0 5 = "fail:" then
+        "fail:" ^ String.concat "," (List.map (fun cl ->
+            let cl = if String.length cl > 4 && String.sub cl 0 4 = "gen_" && String.length cl > 15 && String.sub cl 4 11 = "unexplained"
+              then String.sub cl 4 (String.length cl - 4) else cl in
+            match cl with
+            | "unexplained_accept" -> "bytes_accept_nonconforming"
+            | "unexplained_reject" -> "bytes_reject_conforming"
+            | "unexplained_panic" -> "bytes_panic"
+            | "unexplained_outcome" | "unexplained_T" | "unexplained_ok" -> "bytes_value"
+            | x -> x) (String.split_on_char ',' (String.sub v 5 (String.length v - 5))))
+      else v in
+    if obs = "nobuild" then out (f q0) "fail:gen_does_not_compile"
+    else if obs = "schemaerr" || obs = "protoerr" then out (f q0) "fail:harness_schema"
+    else if not (wf t) || (gen && not (gen_supported t)) then out (f q0) "skip"
+    else
+      let (m, v) = if gen then judge_gen q0 f strip_r obs want else judge q0 quirk_table f strip_r obs want in
+      out m (rename v)
   | "build" ->
     let f q = build_obs Bind q lv t d in
     if obs = "schemaerr" || obs = "protoerr" then out (f q0) "fail:harness_schema"
